@@ -100,8 +100,21 @@ def skeletons_refuse_probe(ctx_, work, rng, nb):
             ntry += len(ref)
             for impl in ("cpp", "rust"):
                 got = V.get("%s %s" % (caller, impl), [])
-                bad = next(((x, y) for x, y in zip(ref, got) if x != y), None)
-                if bad or len(ref) != len(got):
+                # keyed by (op, slot, delta): an output object slot holds whatever the caller's stub left
+                # there, so whether the spy takes it for a buffer can differ from caller to caller and
+                # from skeleton to skeleton run; only perturbations both runs made are compared
+                def keyed(rows):
+                    d_ = {}
+                    for op_, slot_, delta_, refused_, entered_ in rows:
+                        d_.setdefault((op_, slot_, delta_), []).append((refused_, entered_))
+                    return d_
+                kr, kg = keyed(ref), keyed(got)
+                bad = None
+                for key_ in sorted(set(kr) & set(kg)):
+                    for x_, y_ in zip(kr[key_], kg[key_]):
+                        if x_ != y_ and bad is None:
+                            bad = (key_ + x_, key_ + y_)
+                if bad or (ref and not got):
                     fails.append({"property": ctx_["prop"], "idl": l2obj.render_idl(methods), "caller": caller, "skeleton": impl,
                                   "what": "the %s skeleton and the C skeleton disagree on an invocation with one buffer size changed by one: (op, slot, delta, refused, implementation entered) = %s vs C %s"
                                           % (impl, bad[1] if bad else "%d verdicts" % len(got), bad[0] if bad else "%d verdicts" % len(ref))})
